@@ -219,6 +219,9 @@ jose_jwe_enc_jwk(jose_cfg_t *cfg, json_t *jwe, json_t *rcp, const json_t *jwk,
             else
                 tmp = json_deep_copy(rcp);
 
+            if (rcp && !tmp)
+                return false;
+
             if (!jose_jwe_enc_jwk(cfg, jwe, tmp, json_array_get(jwk, i), cek))
                 return false;
         }
